@@ -155,9 +155,13 @@ def run_triple(ctx, tg, t, dis):
         else:
             s = sum(a * b for a, b in zip(chosen, first)) / sum(a * a for a in chosen)
             bad = max(abs(a * s - b) for a, b in zip(chosen, first))
-            if abs(s - 1) > 1e-5 or bad > 8 * EPS * mx:
+            ctx.count("pos-scale-ulp:%d" % int(round(abs(s - 1) / (2 * EPS))))
+            # two rescales (the stale one and the loop head's), each by share/measured-share of a grid that was normalised
+            # when it was stored: C11_fresh_constructor_charge_is_share / C09_normalize_restores_share make both factors 1
+            # in exact arithmetic; in binary32 each is within a few ulp of 1 (observed: total <= 4 ulp; bound 12 ulp)
+            if abs(s - 1) > 12 * 2 * EPS or bad > 8 * EPS * mx:
                 ctx.violation("impl-oracle", "the first phase space of the continued run is not the stored record up to the two normalisations",
-                              case=case, observed=dict(scale=s, dev=bad), expected="scale 1 +- 1e-5, dev <= %g" % (8 * EPS * mx),
+                              case=case, observed=dict(scale=s, dev=bad), expected="scale 1 +- 12 ulp (%g), dev <= %g" % (24 * EPS, 8 * EPS * mx),
                               sig=dict(sig, clause="loaded"))
         # ---- continuation (C11_continuation_equiv / _renorm0)
         if r < 0:
